@@ -523,3 +523,145 @@ pub fn m_keyed_first<'a>(a: S<'a, KV>) {
         .assume_ordering::<TotalOrder>(nondet!(/** observation only */))
         .embedded_output("out");
 }
+
+/// KeyedSingleton::into_singleton (trusted ordering site): the HashMap is returned as a sorted Vec
+pub fn u_into_singleton<'a>(a: S<'a, KV>) {
+    b1(a).1
+        .into_keyed()
+        .reduce(q!(|acc, v| *acc = (*acc * 3 + v) % 1009))
+        .into_singleton()
+        .map(q!(|m| {
+            let mut v: Vec<(u32, u32)> = m.into_iter().collect();
+            v.sort();
+            v
+        }))
+        .all_ticks()
+        .embedded_output("out");
+}
+
+/// Stream::repeat_with_keys (trusted ordering site on the keys of a keyed singleton)
+pub fn u_repeat_with_keys<'a>(a: S<'a, KV>, b: S<'a, u32>) {
+    let (ba, bb) = b2(a, b);
+    let keys = ba
+        .into_keyed()
+        .reduce(q!(|acc, v| *acc = (*acc * 3 + v) % 1009));
+    bb.repeat_with_keys(keys)
+        .entries()
+        .all_ticks()
+        .assume_ordering::<TotalOrder>(nondet!(/** observation only */))
+        .embedded_output("out");
+}
+
+// ------------------------------------------------------------------ round 2: generators at top
+// level and deeper compositions.  These flows have no hand-written Gallina term: their IR term is
+// translated from the builder's IR dump on every run (tools/hydro.py translate_flow).
+
+pub fn f_limit<'a>(a: S<'a, u32>) {
+    a.limit(q!(2)).embedded_output("out");
+}
+
+pub fn f_first<'a>(a: S<'a, u32>) {
+    let tick = a.location().tick();
+    a.first()
+        .snapshot(&tick, nondet!(/** observation only */))
+        .all_ticks()
+        .embedded_output("out");
+}
+
+pub fn c_filter_map_unique_enumerate<'a>(a: S<'a, u32>) {
+    a.filter(q!(|x| *x % 2 == 1))
+        .map(q!(|x| x * 2 + 1))
+        .unique()
+        .enumerate()
+        .embedded_output("out");
+}
+
+pub fn c_union_map_unique_count<'a>(a: S<'a, u32>, b: S<'a, u32>) {
+    let tick = a.location().tick();
+    a.merge_unordered(b)
+        .map(q!(|x| x % 4))
+        .unique()
+        .count()
+        .map(q!(|c| (c as u32) * 10))
+        .snapshot(&tick, nondet!(/** observation only */))
+        .all_ticks()
+        .embedded_output("out");
+}
+
+pub fn c_filter_map_keyed_fold<'a>(a: S<'a, KV>) {
+    let tick = a.location().tick();
+    a.filter(q!(|(_, v)| *v % 2 == 1))
+        .map(q!(|(k, v)| (k % 2, v)))
+        .into_keyed()
+        .fold(q!(|| 1u32), q!(|acc, v| *acc = (*acc * 2 + v) % 1009))
+        .snapshot(&tick, nondet!(/** observation only */))
+        .entries()
+        .all_ticks()
+        .assume_ordering::<TotalOrder>(nondet!(/** observation only */))
+        .embedded_output("out");
+}
+
+pub fn c_anti_map_filter_enumerate<'a>(a: S<'a, KV>) {
+    let neg = a.location().source_iter(q!(vec![0u32, 2u32]));
+    a.anti_join(neg)
+        .map(q!(|(k, v)| k * 10 + v))
+        .filter(q!(|x| *x % 3 == 0))
+        .enumerate()
+        .embedded_output("out");
+}
+
+pub fn c_map_limit_enumerate<'a>(a: S<'a, u32>) {
+    a.map(q!(|x| x * 2 + 1))
+        .filter(q!(|x| *x % 3 == 0))
+        .limit(q!(2))
+        .enumerate()
+        .embedded_output("out");
+}
+
+pub fn c_unique_join_map_unique<'a>(a: S<'a, KV>, b: S<'a, KV>) {
+    a.unique()
+        .join(b.unique())
+        .map(q!(|(k, (v, w))| (k, v + w)))
+        .unique()
+        .assume_ordering::<TotalOrder>(nondet!(/** observation only */))
+        .embedded_output("out");
+}
+
+pub fn c_filter_first<'a>(a: S<'a, u32>) {
+    let tick = a.location().tick();
+    a.filter(q!(|x| *x % 3 == 0))
+        .map(q!(|x| x + 100))
+        .first()
+        .snapshot(&tick, nondet!(/** observation only */))
+        .all_ticks()
+        .embedded_output("out");
+}
+
+pub fn c_join_fold_map<'a>(a: S<'a, KV>, b: S<'a, KV>) {
+    let tick = a.location().tick();
+    a.filter(q!(|(_, v)| *v % 2 == 1))
+        .join(b)
+        .map(q!(|(k, (v, w))| k + v * w))
+        .fold(
+            q!(|| 0u32),
+            q!(
+                |acc, x| *acc += x,
+                commutative = manual_proof!(/** addition */)
+            ),
+        )
+        .map(q!(|x| x * 2 + 1))
+        .snapshot(&tick, nondet!(/** observation only */))
+        .all_ticks()
+        .embedded_output("out");
+}
+
+/// a shared (Tee'd) stream used twice
+pub fn c_tee_union<'a>(a: S<'a, u32>) {
+    let m = a.map(q!(|x| x % 4));
+    m.clone()
+        .filter(q!(|x| *x != 2))
+        .merge_unordered(m.map(q!(|x| x + 100)))
+        .unique()
+        .assume_ordering::<TotalOrder>(nondet!(/** observation only */))
+        .embedded_output("out");
+}
